@@ -3,6 +3,7 @@ package interpreter
 import (
 	"fmt"
 	"math"
+	"reflect"
 	"strconv"
 
 	"github.com/ah-naf/borno/ast"
@@ -850,6 +851,16 @@ func isTruthy(value interface{}) bool {
 }
 
 func isEqual(a, b interface{}) bool {
+	// Arrays and objects are references: two of them are equal only if they are
+	// the same array / object. (Go's == panics on slices and maps.)
+	switch x := a.(type) {
+	case []interface{}:
+		y, ok := b.([]interface{})
+		return ok && len(x) == len(y) && reflect.ValueOf(x).Pointer() == reflect.ValueOf(y).Pointer()
+	case map[string]interface{}:
+		y, ok := b.(map[string]interface{})
+		return ok && reflect.ValueOf(x).Pointer() == reflect.ValueOf(y).Pointer()
+	}
 	return a == b
 }
 
